@@ -1897,6 +1897,24 @@ impl<'a> VisitMut for AnchorPass<'a> {
         }
         b.stmts = out;
     }
+    fn visit_arm_mut(&mut self, a: &mut syn::Arm) {
+        // `PAT => return X,` : an arm whose body is a bare return counts as a return statement
+        if let syn::Expr::Return(_) = &*a.body {
+            let n = self.returns;
+            self.returns += 1;
+            if self.cfg.anchors.iter().any(|(k, _, m)| k == "before_return" && *m == n) {
+                let st = anchor_stmt("before_return", "r", n);
+                let body = (*a.body).clone();
+                a.body = Box::new(syn::parse_quote!({ #st #body; }));
+                if a.comma.is_none() {
+                    a.comma = None;
+                }
+                self.placed.push(format!("before_return_r_{}", n));
+            }
+            return;
+        }
+        visit_mut::visit_arm_mut(self, a);
+    }
     fn visit_expr_if_mut(&mut self, i: &mut syn::ExprIf) {
         if let syn::Expr::Let(_) = &*i.cond {
             let n = self.iflets;
